@@ -61,6 +61,11 @@ func gen(a Args, out *Out) {
 		{10, connsim.FreeUnreadInbound},
 		{6, connsim.FreeLateInput},
 		{3, connsim.FreeMidFrameTimeout},
+		{3, connsim.FreeCoalesced},
+		{8, connsim.FreeChunkedInbound},
+		{8, connsim.FreeTransportBacklog},
+		{8, connsim.FreeServerGC},
+		{24, connsim.FreeEnv},
 	}
 	var jobs []job
 	var ins []Sx
